@@ -3,7 +3,7 @@ import os, json, itertools
 import cybuild
 
 TITLE = "prange gives sequential results and a safe exit on every schedule"
-EXTRACTS = ["Prange"]
+EXTRACTS = ["Prange", "PrangeShare"]
 RULE = ("(range triple, thread count, schedule, chunk) configurations; bodies with + * ^ | & reductions, lastprivate, "
         "raise / break / return in chosen iterations; OpenMP build run with 1..8 threads; distinct by configuration")
 EXPLANATION = ("theorems: the generated nsteps/index computation enumerates exactly range(start,stop,step) (|step| within C int); "
@@ -140,6 +140,15 @@ def tup(r):
 
 def run(ctx):
     quick = ctx.tier == "quick"
+    from props import C37_share
+    share = C37_share.Share(ctx)          # builds its modules in a background thread
+    try:
+        run_old(ctx, quick)
+    finally:
+        share.evaluate()
+
+
+def run_old(ctx, quick):
     try:
         cybuild.build("c37_omp", SRC, ctx.workdir, cflags=["-O1", "-fopenmp"], ldflags=["-fopenmp"])
     except cybuild.BuildError as e:
